@@ -1357,13 +1357,9 @@ MEMO_STAGES = ("memorize", "defaultIfEmpty", "assertAny")
 
 
 def memo_clash(stages, sg):
-    """assert on an ALREADY memorized iterator replays the remembered prefix twice (open known finding F20): the
-    correspondence keeps out of that class, the C13 oracle demonstrates it"""
-    if sg[0] != "assertAny":
-        return False
-    if stages and stages[-1][0] in ("orderBy", "thenBy"):
-        return True      # an OrderingIterable is handed on as it is, already sorted: a later thenBy is ignored (not modelled)
-    return any(p[0] in MEMO_STAGES or (p[0] == "self") for p in stages)
+    """assert hands an OrderingIterable on as it is, already sorted, and a later thenBy is then ignored: not modelled, kept
+    out of the cases.  (assert / defaultIfEmpty / memorize on an already memorized iterator are ordinary cases: F24 is fixed.)"""
+    return sg[0] == "assertAny" and bool(stages) and stages[-1][0] in ("orderBy", "thenBy")
 
 
 def gen_pipeline(rng, maxlen=4):
